@@ -231,3 +231,18 @@ Theorem C01_imperative_scalar_programs_bit_semantics_is_source_semantics :
   end.
 Proof. exact in_imp_fragment_sound. Qed.
 Print Assumptions C01_imperative_scalar_programs_bit_semantics_is_source_semantics.
+
+(* ... extended by function calls (arguments with effects, callee bodies in the fragment) and `for`
+   loops over ranges (Compile/TSemSemCall.v); [in_proved_fragment] is the union of the two
+   membership tests and is what the extracted checker evaluates per program *)
+Theorem C01_imperative_scalar_programs_with_calls_and_loops :
+  forall P fuel fw fT args o outs,
+  in_proved_fragment fw P = true ->
+  tsem_program fT P args = Ok (o, outs) ->
+  match Sem.run_main fuel P args with
+  | Sem.RunOk bits _ => o = None /\ outs = bits
+  | Sem.RunPanic r m => o = Some (preason_num (pr r), PanicSem.ploc32 (ploc_of m))
+  | Sem.RunStuck _ | Sem.RunNoFuel => True
+  end.
+Proof. exact in_proved_fragment_sound. Qed.
+Print Assumptions C01_imperative_scalar_programs_with_calls_and_loops.
